@@ -69,7 +69,9 @@ func runOne(t *testing.T, p *props.Prop, id int, seed uint64, replay []uint32, i
 			what = "step budget exhausted"
 		}
 		msg := fmt.Sprintf("%s before the scenario finished (steps=%d, sim time=%v); live tasks: %v", what, res.Steps, res.SimTime, res.Live)
-		if p.HangOracle != "" {
+		if p.Race {
+			// the data-race workload mutes every oracle: only the race detector's reports count
+		} else if p.HangOracle != "" {
 			out.Failures = append(out.Failures, dsim.Failure{Oracle: p.HangOracle, Msg: msg})
 		} else {
 			out.EngineErr = append(out.EngineErr, msg)
